@@ -361,6 +361,93 @@ def replay_shapes():
     return False
 
 
+def replay_histories():
+    """a context's answers depend on its configuration only, not on what it held before or on how the configuration got in:
+    (a) handler *objects* (pre-customised, or not registered at all) survive copy()/update()/using(); (b) a context that held
+    one configuration and then loads another answers like one built from the second directly - including schemes that need
+    context keywords (user)"""
+    import warnings
+    from passlib.context import CryptContext
+    from passlib.hash import sha256_crypt, md5_crypt
+    import passlib.utils.handlers as uh
+    warnings.simplefilter("ignore")
+
+    class local_hasher(uh.StaticHandler):
+        name = "local_hasher_not_registered"
+        checksum_chars = uh.LOWER_HEX_CHARS
+        checksum_size = 4
+        _hash_prefix = "@L@"
+
+        def _calc_checksum(self, secret):
+            return "abcd"
+    custom = sha256_crypt.using(min_rounds=2000, max_rounds=3000, default_rounds=2500)
+
+    def answers(ctx, kw_user=False):
+        out = []
+        for f in (lambda: ctx.schemes(), lambda: ctx.default_scheme(), lambda: ctx.handler().default_rounds,
+                  lambda: getattr(ctx.handler(), "min_desired_rounds", None), lambda: ctx.needs_update(H5),
+                  lambda: ctx.needs_update("$5$rounds=2500$abcdefgh$" + "a" * 43), lambda: ctx.identify(ctx.hash("pw")),
+                  lambda: sorted(ctx.context_kwds)):
+            try:
+                out.append(f())
+            except Exception as e:
+                out.append(("raises", type(e).__name__))
+        if kw_user:
+            for f in (lambda: ctx.hash("pw", user="bob")[:3], lambda: ctx.verify("pw", ctx.hash("pw", user="bob"), user="bob"),
+                      lambda: ctx.verify_and_update("pw", ctx.hash("pw", scheme="postgres_md5", user="bob"), user="bob")[0],
+                      lambda: ctx.hash("pw", scheme="md5_crypt", user="bob")[:3]):
+                try:
+                    out.append(f())
+                except Exception as e:
+                    out.append(("raises", type(e).__name__))
+        return out
+    # (a) handler objects
+    for schemes in ([custom, "md5_crypt"], [custom], [local_hasher, custom], ["md5_crypt", local_hasher]):
+        ctx = CryptContext(schemes=schemes)
+        ref = answers(ctx)
+        for label, mk in (("copy()", lambda: ctx.copy()), ("copy(unrelated option)", lambda: ctx.copy(md5_crypt__salt_size=6) if "md5_crypt" in ctx.schemes() else ctx.copy()),
+                          ("using()", lambda: ctx.using()), ("update({})", lambda: (lambda c: (c.update({}), c)[1])(ctx.copy()))):
+            try:
+                got = answers(mk())
+            except Exception as e:
+                return "%s of a context built on handler objects %r raises %r" % (label, [getattr(x, "name", x) for x in schemes], e)
+            if got != ref:
+                return "%s of a context built on handler objects %r answers differently: %r instead of %r" % (
+                    label, [getattr(x, "name", x) for x in schemes], got, ref)
+    # (b) what it held before does not matter
+    cfgs = [dict(schemes=["md5_crypt", "sha256_crypt"]), dict(schemes=["md5_crypt", "postgres_md5"]),
+            dict(schemes=["postgres_md5", "md5_crypt"], default="md5_crypt"), dict(schemes=["sha256_crypt"], sha256_crypt__min_rounds=2000)]
+    for first in [None] + cfgs:
+        for second in cfgs:
+            user = "postgres_md5" in second["schemes"]
+            ref = answers(CryptContext(**second), user)
+            for label in ("load", "update-from-empty", "copy-with"):
+                c = CryptContext(**first) if first else CryptContext()
+                try:
+                    if label == "load":
+                        c.load(second)
+                    elif label == "update-from-empty":
+                        c.load({})
+                        c.update(**second)
+                    else:
+                        c = CryptContext().copy(**second)
+                    got = answers(c, user)
+                except Exception as e:
+                    return "a context that held %r and then got %r via %s raises %r" % (first, second, label, e)
+                if got != ref:
+                    return "a context that held %r and then got %r via %s answers %r, one built directly answers %r" % (first, second, label, got, ref)
+    return False
+
+
+def ob_histories():
+    r = replay_histories()
+    if r:
+        return violation("CryptContext: %s" % r, "context:histories", {"module": "harness.c10", "func": "replay_histories", "args": {}})
+    return ok("handler objects (customised / unregistered) survive copy/using/update; 5 previous x 4 next configurations x 3 routes, "
+              "incl. schemes with context keywords: answers depend on the configuration only", paths=80, verdict="finite-enumeration",
+              nontrivial=False)
+
+
 def ob_shapes():
     r = replay_shapes()
     if r:
@@ -470,6 +557,7 @@ def run(tier, seed, t0, only=None):
     obs.append(Ob("roundtrip-dict", ob_roundtrip_dict, timeout=1800))
     obs.append(Ob("roundtrip-ini", ob_roundtrip_ini, timeout=600))
     obs.append(Ob("roundtrip-shapes", ob_shapes, timeout=600))
+    obs.append(Ob("histories", ob_histories, timeout=600))
     for shape in ([(0, 0, 2), (0, 2, 2), (2, 2, 2), (0, 3, 3)] if tier == "quick" else
                   [(a, b, c) for a in (0, 1, 2, 3) for b in (0, 1, 2, 3) for c in (1, 2, 3) if not (a and not b and False)]):
         obs.append(Ob("keys%r" % (shape,), ob_keys, {"shape": shape}, timeout=1800))
